@@ -74,3 +74,51 @@ pub fn crash_point(site: &'static str) {
         f(site)
     }
 }
+
+// ---- replication links -----------------------------------------------------------
+// With link mode on, start_replication does not open a TCP connection: the thread that
+// would have run the link hands its command receiver to the harness and parks until
+// the harness closes the link.  Everything around it (supervisor, member table, the
+// "link died => remove member" code) runs unchanged.
+pub struct LinkEnd {
+    pub from: String,
+    pub to: String,
+    pub is_primary: bool,
+    pub receiver: futures::channel::mpsc::Receiver<String>,
+}
+
+lazy_static::lazy_static! {
+    static ref LINK_MODE: std::sync::atomic::AtomicBool = std::sync::atomic::AtomicBool::new(false);
+    static ref LINKS: Mutex<Vec<LinkEnd>> = Mutex::new(Vec::new());
+    static ref CLOSED: (Mutex<std::collections::HashSet<(String, String)>>, std::sync::Condvar) =
+        (Mutex::new(std::collections::HashSet::new()), std::sync::Condvar::new());
+}
+
+pub fn set_link_mode(on: bool) {
+    LINK_MODE.store(on, std::sync::atomic::Ordering::SeqCst);
+}
+
+pub fn link_mode() -> bool {
+    LINK_MODE.load(std::sync::atomic::Ordering::SeqCst)
+}
+
+/// Called by start_replication in link mode; returns when the harness closes the link.
+pub fn open_link(from: String, to: String, is_primary: bool, receiver: futures::channel::mpsc::Receiver<String>) {
+    LINKS.lock().unwrap().push(LinkEnd { from: from.clone(), to: to.clone(), is_primary, receiver });
+    let (lock, cv) = &*CLOSED;
+    let mut closed = lock.lock().unwrap();
+    while !closed.contains(&(from.clone(), to.clone())) {
+        closed = cv.wait(closed).unwrap();
+    }
+    closed.remove(&(from, to));
+}
+
+pub fn take_links() -> Vec<LinkEnd> {
+    std::mem::take(&mut *LINKS.lock().unwrap())
+}
+
+pub fn close_link(from: &str, to: &str) {
+    let (lock, cv) = &*CLOSED;
+    lock.lock().unwrap().insert((from.to_string(), to.to_string()));
+    cv.notify_all();
+}
